@@ -8,6 +8,7 @@ parse_rule: the result is always a check object."""
 import itertools
 import json
 import os
+import re
 
 import yaml
 
@@ -187,6 +188,11 @@ def check_string(ctx, real, text, stratum, case, readings=((False, False),)):
             wants = set()
             for a in asts:
                 wants.add(False if a is None else text_ev(a, lowered))
+            if isinstance(got, str) and not rejected_all and stray_percent(text):
+                # a grammatical sentence whose check contains a `%` outside a well-formed %(key)s placeholder: C04/C14
+                # exclude that input class ("% only inside well-formed placeholders"), and C02 says nothing about it
+                ctx.unconstrained('stray-percent-in-check')
+                break
             if isinstance(got, str):
                 ctx.violation(classify_string(text, 'enforce-raises'), case,
                               {'rule': text, 'creds': creds, 'observed': got,
@@ -205,6 +211,13 @@ def check_string(ctx, real, text, stratum, case, readings=((False, False),)):
             tree.cleanup()
     drain_contracts(ctx, case, text)
     ctx.sample({'rule': text, 'sentence': not rejected_all}, stratum)
+
+
+_PLACEHOLDER = re.compile(r'%\([^()%]*\)s')
+
+
+def stray_percent(text):
+    return '%' in _PLACEHOLDER.sub('', text)
 
 
 def classify_string(text, outcome):
